@@ -1,4 +1,6 @@
 # Per-property check configuration: subjects (name, quick runs, thorough runs) and texts for MANIFEST.json.
+from subjects_index import SUBJECTS as _S
+
 def GROUP_OF(subject):
     return subject.split(".")[0]
 
@@ -104,6 +106,49 @@ CHECKS = {
         expect_probes=["bronson_rotations", "F10_eager_reclaim", "quiescent_traversals"],
         title="Skip lists and trees are linearizable ordered sets and maps",
         technique="deterministic simulation (seeded schedules and faults, forced skip-list tower heights) + Wing-Gong linearizability check against an ordered key->instance map, relaxed interval oracle for extract_min/extract_max, quiescent structure checks",
+    ),
+    "C13": dict(
+        subjects=[(n, 1200, 30000) for n in _S["list"]],
+        classes=["not-linearizable", "functor-call-count", "traversal-order", "traversal-mismatch", "size-mismatch", "inconsistent-structure", "extract-minmax-false-empty", "extract-minmax-order"],
+        expect_probes=["F10_eager_reclaim", "quiescent_traversals"],
+        title="Ordered lists are linearizable sets and maps",
+        technique="deterministic simulation (seeded schedules; weak-CAS, stall, thread-churn, eager-reclamation, RCU signal/condvar faults; degenerate hashes and minimal capacities as knobs) + Wing-Gong linearizability check of each recorded history against a key->instance map model, plus quiescent traversal/size/consistency checks",
+    ),
+    "C14": dict(
+        subjects=[(n, 800, 20000) for n in _S["hash"]],
+        classes=["not-linearizable", "functor-call-count", "traversal-order", "traversal-mismatch", "size-mismatch", "inconsistent-structure", "extract-minmax-false-empty", "extract-minmax-order"],
+        expect_probes=["split_bucket_inits", "split_bucket_init_contention", "feldman_array_nodes_expanded", "feldman_slot_converting", "F10_eager_reclaim"],
+        title="Hash sets and maps are linearizable, including during growth",
+        technique="deterministic simulation (seeded schedules; weak-CAS, stall, thread-churn, eager-reclamation, RCU signal/condvar faults; degenerate hashes and minimal capacities as knobs) + Wing-Gong linearizability check of each recorded history against a key->instance map model, plus quiescent traversal/size/consistency checks",
+    ),
+    "C16": dict(
+        subjects=[(n, 1200, 30000) for n in _S["lockset"]],
+        classes=["not-linearizable", "functor-call-count", "traversal-order", "traversal-mismatch", "size-mismatch", "inconsistent-structure", "extract-minmax-false-empty", "extract-minmax-order"],
+        expect_probes=["cuckoo_relocate_calls", "cuckoo_resize_calls"],
+        title="Lock-based hash containers are linearizable across concurrent resizes",
+        technique="deterministic simulation (seeded schedules; weak-CAS, stall, thread-churn, eager-reclamation, RCU signal/condvar faults; degenerate hashes and minimal capacities as knobs) + Wing-Gong linearizability check of each recorded history against a key->instance map model, plus quiescent traversal/size/consistency checks",
+    ),
+    "C17": dict(
+        subjects=[(n, 800, 20000) for n in _S["lockset"] + [x for x in _S["hash"] if "SplitList" in x or "Feldman" in x]],
+        classes=["not-linearizable", "functor-call-count", "traversal-order", "traversal-mismatch", "size-mismatch", "inconsistent-structure", "extract-minmax-false-empty", "extract-minmax-order"],
+        expect_probes=["cuckoo_relocate_calls", "cuckoo_resize_calls", "split_bucket_inits", "feldman_array_nodes_expanded"],
+        assumptions=["degenerate hashes are bounded to what the documented algorithms can hold (CuckooSet: at most arity x probe-set size keys per hash tuple); the 1-thread slice of the batch is plain seeded input generation"],
+        title="Resize and rehash never lose or duplicate elements for any hash functions",
+        technique="deterministic simulation of 1-3 threads of insert-heavy programs under degenerate (constant / one-bit / shared-prefix) hash functions and minimal capacities, so that relocation, resize, bucket initialisation and array-node expansion race with the operations; oracle: linearizability vs key->instance map + quiescent find of every key + size()",
+    ),
+    "C18": dict(
+        subjects=[(n, 700, 15000) for n in _S["list"] + _S["tree"] + [x for x in _S["hash"] if "SplitList" in x]],
+        classes=["traversal-order", "traversal-mismatch", "size-mismatch", "inconsistent-structure", "not-linearizable"],
+        expect_probes=["quiescent_traversals", "bronson_rotations"],
+        title="Quiescent structure is well-formed and traversal is exact",
+        technique="deterministic simulation of longer concurrent phases (up to 4 threads x 8 ops) followed by quiescence; oracle: traversal visits exactly the keys that find() sees, strictly increasing where ordered, size()/empty() agree, EllenBinTree/Bronson check_consistency(), Bronson search order and AVL balance from recomputed heights",
+    ),
+    "C20": dict(
+        subjects=[(n, 250, 5000) for n in _S["list"] + _S["hash"] + _S["tree"] + _S["lockset"] + _S["queue"] + _S["stack"] + _S["deque"] + _S["pq"]],
+        classes=["not-linearizable", "functor-call-count", "traversal-order", "traversal-mismatch", "size-mismatch", "inconsistent-structure", "extract-minmax-false-empty", "extract-minmax-order"] + ["not-linearizable"],
+        assumptions=["one simulated client thread: the schedule space is a point; what the simulator adds is spurious weak-CAS failure, forced skip-list tower heights, seeded rand()/clock, SMR knobs and eager reclamation; the rest is plain seeded generation of operation sequences (stated in DESIGN.md)"],
+        title="Single-threaded API behaviour matches the reference container model",
+        technique="seeded generation of single-thread operation sequences (8-36 ops) executed under the simulator with weak-CAS failure injection and knob randomisation; each result (return value, update pair, functor instance/new-flag/call count, pop order, final contents, size/empty) compared with the sequential reference model",
     ),
 }
 
